@@ -93,6 +93,7 @@ fn real_main() {
                 "solve" => { let k = *crng.pick(&[gen::Kind::General, gen::Kind::General, gen::Kind::Tight, gen::Kind::Tight, gen::Kind::Hints]); solve::gen_case(&mut crng, k) }
                 "soft" => solve::gen_case(&mut crng, gen::Kind::Soft),
                 "lazy" => solve::gen_case(&mut crng, gen::Kind::Lazy),
+                "cancel" => solve::gen_cancel_case(&mut crng),
                 "conflictfree" => solve::gen_case(&mut crng, gen::Kind::ConflictFree),
                 f => panic!("unknown family {f}"),
             },
@@ -109,7 +110,7 @@ fn real_main() {
             "amo" => guarded(move || amo::run_case(&l2)),
             "cache" => guarded(move || cache::run_case(&l2)),
             "pool" => guarded(move || pool::run_case(&l2)),
-            "solve" | "soft" | "conflictfree" | "lazy" => guarded(move || solve::run_case(&l2)),
+            "solve" | "soft" | "conflictfree" | "lazy" | "cancel" => guarded(move || solve::run_case(&l2)),
             f => panic!("unknown family {f}"),
         };
         writeln!(impl_f, "case {i} {family}").unwrap();
